@@ -99,13 +99,28 @@ def selfcheck(ctx):
 
 
 def printers():
-    from calmjs.parse.unparsers.es5 import pretty_printer, minify_printer
+    from calmjs.parse.unparsers.es5 import pretty_printer, minify_printer, Unparser
+    from calmjs.parse import rules
+    from calmjs.parse.lexers.es5 import Lexer
+    from calmjs.parse.handlers.core import token_handler_str_default, token_handler_unobfuscate
     return [
         ('pretty', lambda: pretty_printer('  ')),
         ('minify', lambda: minify_printer()),
         ('minify_drop_semi', lambda: minify_printer(drop_semi=True)),
         ('minify_obfuscate', lambda: minify_printer(obfuscate=True)),
         ('minify_obfuscate_globals', lambda: minify_printer(obfuscate=True, obfuscate_globals=True, drop_semi=True)),
+        # the token handler is a constructor argument that overrides the one the rules bring along: the plain
+        # handler under renaming rules (renamed text, so no explicit position may be claimed for it), the
+        # un-obfuscating one under rules that rename nothing, both under the indenting rules
+        ('obfuscate_with_plain_token_handler', lambda: Unparser(
+            rules=(rules.minify(drop_semi=False), rules.obfuscate(obfuscate_globals=True,
+                                                                   reserved_keywords=Lexer.keywords_dict.keys())),
+            token_handler=token_handler_str_default)),
+        ('indent_with_unobfuscate_token_handler', lambda: Unparser(
+            rules=(rules.indent(indent_str='\t'),), token_handler=token_handler_unobfuscate)),
+        ('obfuscate_indent_plain_token_handler', lambda: Unparser(
+            rules=(rules.obfuscate(reserved_keywords=Lexer.keywords_dict.keys()), rules.indent(indent_str=' ')),
+            token_handler=token_handler_str_default)),
     ]
 
 
